@@ -419,6 +419,11 @@ func findCallsToContractedFunctions(
 		if !hasOnlyNonNilToNonNilContract(functionContracts, funcObj) {
 			return true
 		}
+		if len(callExpr.Args) == 0 {
+			// A call without arguments (of a variadic function, or of a function whose hand-written
+			// contract does not fit its signature) has no argument site to relate the result to.
+			return true
+		}
 		calls[funcObj] = append(calls[funcObj], callExpr)
 		return true
 	})
